@@ -197,6 +197,26 @@ DoneBegin(c, t) ==
   /\ UNCHANGED <<ready, picks, lastPick, prevPick, succ, lag, lmin, lmax, lastDone, badrun, goodrun, failrun, ended>>
   /\ out' = [op |-> "dbegin", c |-> c, t |-> t]
 
+(* ---------------------------------------------------------------- every operation returns *)
+
+\* "Every pick returns one of the ready connections": Pick and the completion callback are total
+\* operations.  However long the picker has been idle (no pick for 30 s, a minute, five minutes,
+\* with or without calls still in flight) and whatever completed in between, a pick of a picker with
+\* ready connections has a connection it may return (the guards of Pick never exclude all of them:
+\* PickTotal) and the completion of a call in flight has a step to take (DoneTotal).  An invoked
+\* operation that does not return - observed by the recorder as a call that is still blocked when
+\* every goroutine of the process is blocked, or that panics - is therefore never a step of this
+\* specification: FaultFails names the clause.  `pending` is the recorder's own count of calls of
+\* connection c that were picked and not yet completed.
+PickTotalAt(t) == ready # {} => \E c \in ready : PickFails(c, t) = {}
+
+FaultFails(op, kind, c, pending) ==
+  IF kind \notin {"never-returns", "panics"} \/ op \notin {"pick", "done"} THEN {"unknown-fault"}
+  ELSE IF op = "pick" THEN (IF kind = "panics" THEN {"pick-panics"} ELSE {"pick-never-returns"})
+  ELSE IF c \notin ready THEN {"done-not-ready"}
+  ELSE IF pending <= 0 THEN {"inflight"}
+  ELSE IF kind = "panics" THEN {"done-panics"} ELSE {"done-never-returns"}
+
 (* ---------------------------------------------------------------- model checking *)
 
 \* candidate new scores: the slowest admitted move and the target (the bounds are monotone)
@@ -239,5 +259,12 @@ Recover        == \A c \in Conns : goodrun[c] >= RunLen => succ[c] > Throttle
 FailBound      == \A c \in Conns : failrun[c] >= FailB => succ[c] <= Throttle
 
 NoStarve2 == [][out'.op = "pick" => StarveOK(out'.c, out'.t)]_vars
+
+\* totality (see above), for every time advance the model offers - idle periods included
+PickTotal == \A d \in MCSteps : PickTotalAt(now + d)
+DoneTotal == \A c \in ready : infl[c] > 0 =>
+               \A d \in MCSteps, code \in MCCodes, lat \in MCLats :
+                 \E s2 \in SuccCand(succ[c], Acceptable(code), Td(c, now + d)), l2 \in LagCand(lag[c], lat) :
+                    DoneFails(c, code, lat, now + d, s2, l2, FALSE) = {}
 
 =============================================================================
